@@ -254,12 +254,12 @@ where
     /// # Ok(())
     /// # }
     /// ```
-    pub fn query<'r, I>(
+    pub fn query<'r, 'h: 'r, I>(
         &'r mut self,
-        header: &vcf::Header,
+        header: &'h vcf::Header,
         index: &I,
         region: &Region,
-    ) -> io::Result<Query<'r, R>>
+    ) -> io::Result<Query<'r, 'h, R>>
     where
         I: BinningIndex,
     {
@@ -270,6 +270,7 @@ where
 
         Ok(Query::new(
             self.get_mut(),
+            header,
             chunks,
             reference_sequence_id,
             region.interval(),
